@@ -4,7 +4,9 @@ import Got.Model.TaskQ
 drv_taskq (monitor mode): input line = `<script>\t<impl observation>`; answer `ok` or `reject <model line>`.
 
 script:  c09 K <k> close <t|-> cstop <n|-> cons <start> <d0> <d1> ... | <p> <kind> <t> ; <p> <kind> <t> ; ...
-  kinds: cb0..cb3 (SendCallback, handler returns pair code), cd0..cd3 (same, consumer calls Do twice),
+  kinds: cb<code> (SendCallback, handler returns the pair of that code: 0..3 = (nil|int)×(nil|err), 4s+{0,2} = result
+         shape s+1 — typed nils, pointer, struct, array, string, error-typed, slice, map — without/with err),
+         cd<code> (same, consumer calls Do twice),
          nil (SendCallback(nil)), tk (SendTask(user task)), tn (SendTask(nil)).
   Times are virtual ns relative to the scenario start.  The consumer works at instants ≡ 8 (mod 16);
   the j-th received task keeps it busy until alignUp(now + d_(j mod n)).
@@ -73,14 +75,45 @@ def showOpt : Option Nat → String
   | none => "nil"
   | some v => toString v
 
-def showPair (r : Pair) : String := showOpt r.1 ++ "/" ++ showOpt r.2
+/-- result shape of a kind code: codes 0..3 = (nil|int) × (nil|err); code ≥ 4: shape code/4+1, err bit = bit 1 -/
+def resShape (code : Nat) : Nat := if code < 4 then code % 2 else code / 4 + 1
+
+/-- the model treats results as opaque tokens: `v * 64 + shape`; rendered exactly as the harness renders the Go value
+    (dynamic type + value / pointer identity) -/
+def showRes : Option Nat → String
+  | none => "nil"
+  | some tok =>
+    let v := tok / 64
+    match tok % 64 with
+    | 1 => s!"int={v}"
+    | 2 => "*main.box(nil)"
+    | 3 => "map[string]int(nil)"
+    | 4 => "[]string(nil)"
+    | 5 => "chan_int(nil)"
+    | 6 => "func()_int(nil)"
+    | 7 => "*main.box#id={" ++ toString v ++ "}"
+    | 8 => "main.box={" ++ toString v ++ "}"
+    | 9 => s!"[2]int=[{v}_{v + 1}]"
+    | 10 => s!"string=s{v}"
+    | 11 => s!"main.resErr=E{v}"
+    | 12 => s!"[]int=[{v}]"
+    | 13 => s!"map[string]int=map[k:{v}]"
+    | 14 => "*main.perr(nil)"
+    | _ => s!"int={v}"
+
+def showErr : Option Nat → String
+  | none => "nil"
+  | some v => s!"*errors.errorString={v}"
+
+def showPair (r : Pair) : String := showRes r.1 ++ "/" ++ showErr r.2
 
 def showT : Option Nat → String
   | none => "-"
   | some v => toString v
 
 def pairOf (code v : Nat) : Pair :=
-  (if code % 2 = 1 then some v else none, if code / 2 % 2 = 1 then some v else none)
+  (if resShape code = 0 then none else some (v * 64 + (if resShape code > 14 then 1 else resShape code)),
+   if code / 2 % 2 = 1 then some v else none)
 
 def kindCode (kind : String) : Nat := ((kind.drop 2).toString.toNat?).getD 0
 
@@ -193,7 +226,7 @@ partial def consWake (sc : Scn) (hints : List (String × String)) (sim : Sim) (g
   else
     let id := sim.srec[g]!.id
     let v := 1000 * sp.p + sp.i + 1
-    let r := if phase = 1 then pairOf (kindCode sp.kind) v else pairOf ((kindCode sp.kind + 1) % 4) (v + 500000)
+    let r := if phase = 1 then pairOf (kindCode sp.kind) v else pairOf ((kindCode sp.kind % 4 + 1) % 4) (v + 500000)
     let sim := doStep sim (.call r)
     let sim := doStep sim .store
     let sim := doStep sim .finish
